@@ -102,6 +102,16 @@ def check(index, ctx):
     ctx.rule("A", "Aggregate applies the aggregator exactly once, on every path with at least one key, to the column-wise concatenation, and hands each key its own slice")
     ctx.rule("S", "a transform is a function of its input: applying one never stores to an attribute of a transform object (only constructors do), so a transform applied again — "
                   "Jac with retain_graph=True on a batch of another size — computes its map afresh")
+    ctx.rule("P", "a building block that receives its tensors as an Iterable materialises them before any other traversal (a generator walked once to pre-compute lengths leaves "
+                  "nothing for the constructor that stores the keys: the block then differentiates with respect to nothing)")
+    from .C01 import single_pass_rule
+
+    n_it = 0
+    for fi_ in index.all_functions(BLOCKS):
+        if fi_.parent is None and fi_.cls is not None and fi_.name == "__init__" and any("Iterable" in (ast.unparse(a_.annotation) if a_.annotation is not None else "") for a_ in fi_.node.args.args):
+            n_it += 1
+            single_pass_rule(ctx, index, "P", fi_)
+    ctx.floor("constructors of building blocks with Iterable parameters", n_it, 3)
     P, rs = _pipe.runs(index)
     n = 0
     stateful = {}
